@@ -24,7 +24,7 @@ ASSUMPTIONS = ['virtual time; horizon 4-12 periods after the last client op']
 PROBES = ['cancel_at_wake_instant', 'cancel_with_equal_not_identical_key']
 PLAN = {
   'quick': {'strata': {'cancel': 3500, 'concurrent-create': 1200}, 'wall_s': 300, 'chunk': 50, 'min_conclusive': 800},
-  'thorough': {'strata': {'cancel': 100000, 'concurrent-create': 30000}, 'wall_s': 900, 'chunk': 100, 'min_conclusive': 8000},
+  'thorough': {'strata': {'cancel': 100000, 'concurrent-create': 30000}, 'wall_s': 900, 'chunk': 100, 'min_conclusive': 800},
 }
 
 
